@@ -26,6 +26,20 @@ SINGLE = {"Ref", "Base64", "Sub", "GetAZs", "ImportValue", "GetAtt", "Condition"
 SEQ = {"GetAtt", "Sub", "Select", "Split", "Join", "FindInMap", "And", "Equals", "Contains", "EachMemberIn", "EachMemberEquals", "ValueOf", "If", "Not", "Or"}
 
 
+# shapes a loader could confuse with its own bookkeeping (placeholders of tagged values are single-key maps with a null value; empty
+# containers; nulls next to containers; long-form intrinsics written out by hand) - every one is ordinary data and must load as written
+_N = None
+STRUCTS = [
+    {"a": [{"Default": _N}, ["a", "b"], 3]}, {"a": [{"Fn::Join": _N}, ["x", "y"]]}, {"a": [{"Ref": _N}, "s", [1]]}, {"a": [{"k": _N}, {"k2": _N}, [], {}]},
+    {"a": {"Fn::Join": _N, "b": [1]}}, {"a": {"k": _N}, "b": ["x"]}, {"a": [[{"k": _N}], [[1]]]}, {"a": [_N, [_N], {"n": _N}, [[], {}]]},
+    {"a": [[], {}, [[]], [{}], {"e": []}, {"e": {}}]}, {"a": [{"Ref": "x"}, {"Fn::GetAtt": ["r", "a"]}, {"Fn::Sub": "${x}"}, {"Condition": "c"}]},
+    {"a": {"Fn::If": ["c", {"Ref": "x"}, {"Ref": "AWS::NoValue"}]}, "b": {"Fn::Join": ["", ["a", {"Ref": "b"}]]}},
+    {"a": [{"k": _N}, ["l"]], "b": [{"k": _N}, {"m": ["l"]}], "c": [["l"], {"k": _N}]}, {"a": [{"k": ""}, ["l"]], "b": [{"k": 0}, ["l"]], "c": [{"k": False}, ["l"]]},
+    {"a": [{"k": _N, "j": _N}, ["l"]]}, {"a": {"x": [{"y": [{"z": _N}, [1, [2, [3]]]]}]}}, {"Resources": {"r": {"Type": "T", "Properties": {"p": [{"Ref": _N}, ["a"]]}}}},
+    {"a": [1, [2, [3, [4, [5, [6]]]]]], "b": {"c": {"d": {"e": {"f": {"g": _N}}}}}}, {"a": ["", " ", "null", "~", "[]", "{}"], "b": [0, -0.0, 0.0, False, _N, ""]},
+]
+
+
 def strict_eq(a, b):
     if type(a) is not type(b):
         return False
@@ -68,8 +82,11 @@ def keys_safe(doc):
 def shard(ctx):
     rng = ctx.rng("c11")
     n = 40 if ctx.quick else 1100
-    for t in range(n):
-        doc = gen.gen_doc(rng, scalars=SCALARS)
+    corpus = [d for i, d in enumerate(STRUCTS) if ctx.mine(i)]
+    for t in range(n + len(corpus)):
+        doc = corpus[t] if t < len(corpus) else gen.gen_doc(rng, scalars=SCALARS)
+        if t < len(corpus):
+            ctx.res.counts["structure_corpus_documents"] += 1
         if not keys_safe(doc):
             continue
         model = json.loads(json.dumps(doc))     # normalise (tuples etc.)
